@@ -477,8 +477,8 @@ theorem cbCloseOp_closes (C : Cfg) (s : St) (c : Nat) :
   exact gb_set_self _ _ _ (by rw [c12.clen]; exact hlt)
 
 /-- reclosing the breaker of network `n` while the section of its line is in service -/
-theorem G.closeBreaker {C : Cfg} {s : St} (w : WF C) (w2 : WF2 C) (z : Sz C s) (g : G C s) (n : Nat) (hn : n < C.nets.length)
-    (hsc : gb s.secConn (headSec C n) = true) : G C (cbCloseOp C s (netOf C n).cb) := by
+theorem G.closeBreaker {C : Cfg} {s : St} (w : WF C) (w2 : WF2 C) (z : Sz C s) (g : G C s) (n : Nat) (hn : n < C.nets.length) :
+    G C (cbCloseOp C s (netOf C n).cb) := by
   obtain ⟨c1, _, _, c4⟩ := cbCloseOp_sw C s (netOf C n).cb
   obtain ⟨cl, back⟩ := cbCloseOp_closes C s (netOf C n).cb
   have hl0 : C.cbLine.getD (netOf C n).cb 0 = (netOf C n).connLine := w.cb_line n hn
@@ -516,14 +516,18 @@ theorem G.closeBreaker {C : Cfg} {s : St} (w : WF C) (w2 : WF2 C) (z : Sz C s) (
   · intro d hd hx
     have hs0 := cl.dDown d hx
     have hllt : C.disconLine.getD d 0 < C.lines.length := w.discon_lt d hd
-    have hne : C.disconLine.getD d 0 ≠ (netOf C n).connLine := by
-      intro e
-      have hdin : d ∈ (lineOf C (netOf C n).connLine).discons := e ▸ w2.disc_complete d hd
-      rw [c4 hsc d hdin] at hx; exact absurd hx (by simp)
-    rcases g.discon d hd hs0 with h1 | h1 | ⟨j, hj, hsw, hjc⟩
-    · exact Or.inl (by rw [hsec]; exact h1)
-    · exact Or.inr (Or.inl (brKeep _ hllt h1 hne))
-    · exact Or.inr (Or.inr ⟨j, hj, hsw, by rw [hsec]; exact hjc⟩)
+    by_cases hne : C.disconLine.getD d 0 = (netOf C n).connLine
+    · -- a disconnector on the breaker's own line that is still open: the line's section is out of service
+      left
+      rw [hsec, hne]
+      cases hsc : gb s.secConn (lineOf C (netOf C n).connLine).sec
+      · rfl
+      · have hdin : d ∈ (lineOf C (netOf C n).connLine).discons := hne ▸ w2.disc_complete d hd
+        rw [c4 hsc d hdin] at hx; exact absurd hx (by simp)
+    · rcases g.discon d hd hs0 with h1 | h1 | ⟨j, hj, hsw, hjc⟩
+      · exact Or.inl (by rw [hsec]; exact h1)
+      · exact Or.inr (Or.inl (brKeep _ hllt h1 hne))
+      · exact Or.inr (Or.inr ⟨j, hj, hsw, by rw [hsec]; exact hjc⟩)
 
 /-! ### the controller's checks -/
 
@@ -635,7 +639,7 @@ theorem G.checkBreaker {C : Cfg} {s : St} (w : WF C) (w2 : WF2 C) (h : Inv C s) 
       · have := d.inv.head n hn hx
         rw [d.failedSecs] at this; exact absurd this hk0
       · rfl
-    have g2 : G C (cbCloseOp C s1 (netOf C n).cb) := g1.closeBreaker w w2 d.inv.sz n hn hsc0
+    have g2 : G C (cbCloseOp C s1 (netOf C n).cb) := g1.closeBreaker w w2 d.inv.sz n hn
     have hsz2 : Sz C (cbCloseOp C s1 (netOf C n).cb) := (sameLen_cbCloseOp C s1 _).sz d.inv.sz
     have g3 := g2.reconnect w w2 hsz2 n hn (headSec C n) (headSec_mem w n hn)
     exact g3.congr rfl rfl rfl rfl
